@@ -1,5 +1,167 @@
-import SemVerif.Spec.Preds
-import SemVerif.Inventory
-/-! # Property C08 — theorems (under construction) -/
+import SemVerif.Props.T2
+/-!
+# Property C08 — every register that is read has been written earlier in the same function
+
+The unrestricted statement is false on the current tree (recorded finding F7: a call or a field
+read used as an operand names the register *after* the one it wrote; pinned by the existing tests).
+`C08_partial`: for every program, on the model's result, the output predicate reports nothing but
+instances of F7 — in the root stack of every function of an accepted program, each register read
+(operand, logic-condition input, subject of a conditional instruction, argument, initialiser,
+assigned or returned value) is the result register of an earlier instruction of the same stack, or
+else it is `r+1` where `r` is the result register of an earlier `Call` / `ExpressionStructValue`
+instruction *and no instruction of the stack writes it* (the matcher of F7, `isF7alias`).
+
+Proof: the T2 simulation carries the reads invariant `RdInv` (every register read had a tree in the
+abstract reading at that point — i.e. an earlier instruction wrote it or it is the alias register
+after an earlier call / field read —, it was not above the counter, and every register written
+by that instruction or later is above it); `c08_of_rdInv` turns that into the stack-level predicate.
+The witness that the full statement fails is `C08_full_false` (3 instructions).
+-/
 namespace SemVerif
+
+def Instr.aliasBase : Instr → Option Nat
+  | .call _ _ r | .exprStructValue _ _ r => some r
+  | _ => none
+
+theorem bound_step_inv (A : AbsSt) (i : Instr) (q : Nat) (h : (abstractStep A i).bound q = true) :
+    A.bound q = true ∨ i.writes = some q ∨ ∃ r, i.aliasBase = some r ∧ q = r + 1 := by
+  cases i <;> simp [abstractStep, AbsSt.emit_bound, AbsSt.bind_bound, Instr.writes, Instr.aliasBase] at h ⊢ <;>
+    first | exact h | exact Or.inl h | (rcases h with h | h <;> simp [h]) | (rcases h with h | h | h <;> simp [h])
+
+theorem bound_fold_inv (pre : List Instr) : ∀ (A : AbsSt) (q : Nat), (pre.foldl abstractStep A).bound q = true →
+    A.bound q = true ∨ q ∈ resultRegs pre ∨ ∃ j ∈ pre, ∃ r, j.aliasBase = some r ∧ q = r + 1 := by
+  induction pre with
+  | nil => intro A q h; exact Or.inl h
+  | cons i rest ih =>
+    intro A q h
+    simp only [List.foldl_cons] at h
+    rcases ih _ q h with h1 | h1 | ⟨j, hj, r, hr⟩
+    · rcases bound_step_inv A i q h1 with h2 | h2 | ⟨r, hr⟩
+      · exact Or.inl h2
+      · right; left; simp [resultRegs, List.filterMap_cons, h2]
+      · right; right; exact ⟨i, by simp, r, hr⟩
+    · right; left
+      unfold resultRegs at h1 ⊢
+      rw [List.filterMap_cons]
+      cases i.writes <;> simp [h1]
+    · right; right; exact ⟨j, by simp [hj], r, hr⟩
+
+theorem readsBound_split (pre : List Instr) (i : Instr) (post : List Instr) : ∀ (A : AbsSt),
+    readsBound (pre ++ i :: post) A = true → ∀ q ∈ i.reads, (pre.foldl abstractStep A).bound q = true := by
+  induction pre with
+  | nil =>
+    intro A h q hq
+    simp only [List.nil_append, readsBound, Bool.and_eq_true, List.all_eq_true] at h
+    exact h.1 q hq
+  | cons x xs ih =>
+    intro A h q hq
+    simp only [List.cons_append, readsBound, Bool.and_eq_true] at h
+    exact ih _ h.2 q hq
+
+theorem unwrittenReads_mem : ∀ (rest : List Instr) (written : List Nat) (pos p r : Nat),
+    (p, r) ∈ unwrittenReads rest written pos →
+    ∃ pre i post, rest = pre ++ i :: post ∧ p = pos + pre.length ∧ r ∈ i.reads ∧ r ∉ written ∧ r ∉ resultRegs pre
+  | [], _, _, _, _, h => by simp [unwrittenReads] at h
+  | i :: rest, written, pos, p, r, h => by
+    unfold unwrittenReads at h
+    simp only [List.mem_append, List.mem_map, List.mem_filter] at h
+    rcases h with ⟨q, ⟨hq, hnw⟩, he⟩ | h
+    · injection he with h1 h2
+      subst h1; subst h2
+      refine ⟨[], i, rest, rfl, by simp, hq, ?_, by simp [resultRegs]⟩
+      simpa using hnw
+    · obtain ⟨pre, j, post, hd, hp, hr, hnw, hnp⟩ := unwrittenReads_mem rest _ (pos + 1) p r h
+      refine ⟨i :: pre, j, post, by rw [hd]; rfl, by rw [hp]; simp; omega, hr, ?_, ?_⟩
+      · cases hw : i.writes with
+        | none => rw [hw] at hnw; exact hnw
+        | some w => rw [hw] at hnw; simp at hnw; exact hnw.2
+      · unfold resultRegs at hnp ⊢
+        rw [List.filterMap_cons]
+        cases hw : i.writes with
+        | none => exact hnp
+        | some w =>
+          rw [hw] at hnw
+          simp at hnw ⊢
+          exact ⟨hnw.1, by simpa using hnp⟩
+
+/-- the reads invariant gives the stack-level predicate: every read without an earlier writer is an
+instance of the F7 matcher -/
+theorem c08_of_rdInv {s : St} (h : RdInv s) : ∀ p r, (p, r) ∈ unwrittenReads s.root.context [] 0 →
+    isF7alias s.root.context p r = true := by
+  intro p r hm
+  obtain ⟨pre, i, post, hd, hp, hr, _, hnp⟩ := unwrittenReads_mem _ _ _ _ _ hm
+  simp only [Nat.zero_add] at hp
+  have hb := readsBound_split pre i post AbsSt.init (by rw [← hd]; exact h.ok) r hr
+  obtain ⟨_, hlw⟩ := h.lw pre i post hd r hr
+  rcases bound_fold_inv pre AbsSt.init r hb with h0 | h0 | ⟨j, hj, r', hr', hq⟩
+  · simp [AbsSt.bound, AbsSt.init] at h0
+  · exact absurd h0 hnp
+  · unfold isF7alias
+    simp only [Bool.and_eq_true, decide_eq_true_eq, Bool.not_eq_true', List.any_eq_true]
+    refine ⟨⟨by omega, ?_⟩, j, ?_, ?_⟩
+    · rw [hd]
+      have : resultRegs (pre ++ i :: post) = resultRegs pre ++ resultRegs (i :: post) := by
+        unfold resultRegs; rw [List.filterMap_append]
+      rw [this]
+      simp only [List.contains_eq_mem, List.mem_append, decide_eq_false_iff_not, not_or]
+      exact ⟨hnp, fun hw => Nat.lt_irrefl _ (hlw r hw)⟩
+    · rw [hd, hp, List.take_left' rfl]; exact hj
+    · cases j <;> simp [Instr.aliasBase] at hr' <;> simp [hr', hq]
+
+theorem P_C08_stack_F7 {s : St} (h : RdInv s) (i : Nat) :
+    ∀ t ∈ P_C08_stack s.root.context i, t = "F7:operand-names-register-after-call-or-field-read" := by
+  intro t ht
+  unfold P_C08_stack at ht
+  simp only [List.mem_map] at ht
+  obtain ⟨⟨p, r⟩, hm, rfl⟩ := ht
+  dsimp only
+  rw [c08_of_rdInv h p r hm]
+  rfl
+
+/-- **C08 (partial: up to the recorded finding F7)** — on the model's result the output predicate
+reports only instances of F7, for every program -/
+theorem C08_partial (p : Program) :
+    ∀ t ∈ P_C08g p (run p), t = "F7:operand-names-register-after-call-or-field-read" := by
+  intro t ht
+  unfold P_C08g at ht
+  split at ht
+  · rename_i hacc
+    have ha : (run p).accepted = true := by
+      unfold acceptedWF at hacc; simp only [Bool.and_eq_true] at hacc; exact hacc.1
+    have hnp : (run p).panic = none ∧ (run p).errors = [] := by
+      unfold Result.accepted at ha
+      simpa [Option.isNone_iff_eq_none, List.isEmpty_iff] using ha
+    unfold P_C08 at ht
+    rw [List.mem_eraseDups, List.mem_flatMap] at ht
+    obtain ⟨⟨b, i⟩, hbi, ht⟩ := ht
+    have hb := List.fst_mem_of_mem_zipIdx hbi
+    -- every root is the root of an error-free function analysis
+    have hrel := rel_run p
+    have hg := globRel_of_rel hrel
+    have hn := gnames_of_rel hrel
+    have hok := anaOK_of_no_panic p hnp.1
+    have he := hnp.2
+    unfold run at he hb
+    dsimp only at he hb
+    rw [List.append_eq_nil_iff] at he
+    have hfl := flatten_eq_nil_mem he.2
+    rw [List.map_map, List.mem_map] at hb
+    obtain ⟨f, hf, rfl⟩ := hb
+    have hfe : (functionBody (pass2 p (pass1 p GState.init)).globals f).errors = [] := by
+      apply hfl
+      rw [List.mem_map]
+      exact ⟨functionBody (pass2 p (pass1 p GState.init)).globals f, by rw [List.mem_map]; exact ⟨f, hf, rfl⟩, rfl⟩
+    unfold AnaOKB at hok
+    rw [List.all_eq_true] at hok
+    have hrd := (T2_function hg hn f (hok f (by rw [← fns_eq_fnDecls]; exact hf)) hfe).2
+    exact P_C08_stack_F7 hrd i t ht
+  · cases ht
+
+/-- the full statement (no register is read before it is written) fails on the current tree: the
+analysis of `fn m() -> u8 { return g() + 1 }` reads register 2, which nothing writes -/
+theorem C08_full_false :
+    unwrittenReads (run [.fn ⟨['g'], [], .prim .u8, [.ret (.mk (.lit (.u8 1)) none)]⟩,
+      .fn ⟨['m'], [], .prim .u8, [.ret (.mk (.call ['g'] []) (some (.plus, .mk (.lit (.u8 1)) none)))]⟩]).roots[1]!.context [] 0
+      = [(1, 2)] := by decide +kernel
+
 end SemVerif
